@@ -259,6 +259,20 @@ Definition set_slice (v : bvec) (start stop : nat) (val : chunk) : option bvec :
 Definition set_word (v : bvec) (off : nat) (val : chunk) : option bvec :=
   set_slice v off (off + 32) val.
 
+(* ---- ByteVec._well_formed, extended to nested ByteVecs and to the Chunk constructor
+   assertion (start + length <= data_byte_length): keys contiguous from 0, no empty
+   chunk, lengths add up ---- *)
+
+Inductive wfc : chunk -> Prop :=
+| wfc_leaf : forall sym d s l, s + l <= length d -> wfc (Leaf sym d s l)
+| wfc_nest : forall tag cs len, wfl 0 cs len -> wfc (Nest tag cs len)
+with wfl : nat -> list (nat * chunk) -> nat -> Prop :=
+| wfl_nil : forall b, wfl b [] b
+| wfl_cons : forall b c r e,
+    0 < clen c -> wfc c -> wfl (b + clen c) r e -> wfl b ((b, c) :: r) e.
+
+Definition wf (v : bvec) : Prop := wfl 0 (chunks v) (blen v).
+
 (* ---- operation sequences on one ByteVec ---- *)
 
 Inductive op : Type :=
@@ -312,6 +326,9 @@ Arguments defrag_go {B}.
 Arguments defrag {B}.
 Arguments cunwrap {B}.
 Arguments unwrap {B}.
+Arguments wfc {B}.
+Arguments wfl {B}.
+Arguments wf {B}.
 Arguments OAppend {B}.
 Arguments OSetByte {B}.
 Arguments OSetSlice {B}.
